@@ -322,6 +322,10 @@ def _fstring_shape(relpath, cls, func):
         elif isinstance(v, ast.FormattedValue) and isinstance(v.value, ast.Name) and v.conversion == -1 \
                 and v.format_spec is None:
             out.append(("var", v.value.id))
+        elif isinstance(v, ast.FormattedValue) and v.conversion == -1 and v.format_spec is None \
+                and isinstance(v.value, ast.Call) and isinstance(v.value.func, ast.Name) and v.value.func.id == "int" \
+                and len(v.value.args) == 1 and not v.value.keywords and isinstance(v.value.args[0], ast.Name):
+            out.append(("var", v.value.args[0].id))            # {int(name)}: same decimal rendering
         else:
             fail(f"{relpath}: {cls}.{func}: unsupported f-string part {ast.dump(v)[:100]}")
     return out
